@@ -405,3 +405,184 @@ Proof.
   exact (conj (proj1 gas_limit_unlimited) (conj (proj2 gas_limit_unlimited)
         (conj gas_limit_configured target_is_uint64))).
 Qed.
+
+(** * the gas figure of a block of delivered transactions *)
+
+(** what a transaction contributes to the declared gas of its block *)
+Definition counted (t : dtx) : Z := if t_ante t then t_declared t else 0.
+
+Fixpoint declared_sum (txs : list dtx) : Z :=
+  match txs with [] => 0 | t :: r => counted t + declared_sum r end.
+
+Fixpoint used_total (txs : list dtx) : Z :=
+  match txs with [] => 0 | t :: r => t_used t + used_total r end.
+
+Definition tx_wf (t : dtx) : Prop := 0 <= t_declared t /\ 0 <= t_used t.
+
+Lemma counted_nonneg t : tx_wf t -> 0 <= counted t.
+Proof. unfold counted, tx_wf. destruct (t_ante t); lia. Qed.
+
+Lemma declared_sum_nonneg txs : Forall tx_wf txs -> 0 <= declared_sum txs.
+Proof.
+  induction 1 as [|t r Ht _ IH]; cbn [declared_sum]; [lia|].
+  pose proof (counted_nonneg t Ht). lia.
+Qed.
+
+Lemma used_total_nonneg txs : Forall tx_wf txs -> 0 <= used_total txs.
+Proof.
+  induction 1 as [|t r Ht _ IH]; cbn [used_total]; [lia|]. destruct Ht. lia.
+Qed.
+
+(** the running total of the ante decorator is the plain sum as long as that
+    fits a uint64 *)
+Lemma fold_wanted_acc txs : forall acc, Forall tx_wf txs -> 0 <= acc -> acc + declared_sum txs < two64 ->
+  fold_left add_wanted txs acc = acc + declared_sum txs.
+Proof.
+  induction txs as [|t r IH]; intros acc Hwf Ha Hs; cbn [fold_left declared_sum] in *.
+  - lia.
+  - inversion Hwf as [|? ? Ht Hr]; subst.
+    pose proof (counted_nonneg t Ht) as Hc. pose proof (declared_sum_nonneg r Hr) as Hd.
+    assert (Hstep : add_wanted acc t = acc + counted t).
+    { unfold add_wanted, counted in *. destruct (t_ante t); [|lia]. apply Z.mod_small. lia. }
+    rewrite Hstep. rewrite IH; [lia|assumption|lia|lia].
+Qed.
+
+Theorem fold_wanted_sum txs : Forall tx_wf txs -> declared_sum txs <= max_uint64 ->
+  fold_wanted txs = declared_sum txs.
+Proof.
+  intros Hwf Hs. unfold fold_wanted. rewrite fold_wanted_acc; [lia|assumption|lia|].
+  unfold two64, max_uint64 in *. lia.
+Qed.
+
+(** transactions whose ante handler failed leave no trace in the running total *)
+Lemma fold_wanted_filter_acc txs : forall acc,
+  fold_left add_wanted (filter t_ante txs) acc = fold_left add_wanted txs acc.
+Proof.
+  induction txs as [|t r IH]; intros acc; cbn [filter fold_left]; [reflexivity|].
+  destruct (t_ante t) eqn:E.
+  - cbn [fold_left]. apply IH.
+  - rewrite IH. f_equal. unfold add_wanted. rewrite E. reflexivity.
+Qed.
+
+Theorem failed_ante_not_counted en txs : block_wanted en (filter t_ante txs) = block_wanted en txs.
+Proof. unfold block_wanted, fold_wanted. destruct en; [apply fold_wanted_filter_acc|reflexivity]. Qed.
+
+Lemma sum_used_acc txs : forall acc, fold_left (fun a t => a + t_used t) txs acc = acc + used_total txs.
+Proof.
+  induction txs as [|t r IH]; intros acc; cbn [fold_left used_total]; [lia|]. rewrite IH. lia.
+Qed.
+
+Lemma sum_used_total txs : sum_used txs = used_total txs.
+Proof. unfold sum_used. rewrite sum_used_acc. lia. Qed.
+
+Lemma block_used_nonneg mg txs : Forall tx_wf txs -> 0 <= block_used (meter_limit mg) txs.
+Proof.
+  intros Hwf. pose proof (used_total_nonneg txs Hwf). unfold block_used, meter_limit.
+  rewrite sum_used_total. destruct mg as [m|]; [|assumption].
+  destruct (Z.ltb_spec 0 m); [lia|assumption].
+Qed.
+
+(** the figure EndBlock stores for a block: max(floor(sum of the declared gas x
+    multiplier), gas used), for every list of transactions *)
+Theorem block_figure_is_max mg m txs v :
+  Forall tx_wf txs -> declared_sum txs <= max_uint64 ->
+  block_figure true mg m txs = GSet v ->
+  v = Z.max (declared_sum txs * m / prec) (block_used (meter_limit mg) txs).
+Proof.
+  intros Hwf Hs H. unfold block_figure, block_wanted in H. rewrite (fold_wanted_sum txs Hwf Hs) in H.
+  exact (gas_figure_is_max _ _ _ _ (block_used_nonneg mg txs Hwf) H).
+Qed.
+
+(** with the base fee disabled nothing is accumulated: the figure is the gas used *)
+Theorem block_figure_disabled mg m txs v :
+  Forall tx_wf txs -> block_figure false mg m txs = GSet v -> v = block_used (meter_limit mg) txs.
+Proof.
+  intros Hwf H. unfold block_figure, block_wanted in H.
+  pose proof (block_used_nonneg mg txs Hwf) as Hu.
+  rewrite (gas_figure_is_max _ _ _ _ Hu H). cbn [Z.mul]. rewrite Z.div_0_l by (pose proof prec_pos; lia). lia.
+Qed.
+
+(** monotone in the declared gas of every transaction *)
+Definition tx_le (a b : dtx) : Prop :=
+  t_ante a = t_ante b /\ t_used a = t_used b /\ t_declared a <= t_declared b.
+
+Lemma tx_le_sums l1 l2 : Forall2 tx_le l1 l2 ->
+  declared_sum l1 <= declared_sum l2 /\ used_total l1 = used_total l2.
+Proof.
+  induction 1 as [|a b r1 r2 (Ha & Hu & Hd) _ IH]; cbn [declared_sum used_total]; [lia|].
+  unfold counted. rewrite Ha. destruct (t_ante b); lia.
+Qed.
+
+Theorem block_figure_mono_declared mg m l1 l2 v1 v2 :
+  Forall2 tx_le l1 l2 -> Forall tx_wf l1 -> Forall tx_wf l2 -> declared_sum l2 <= max_uint64 -> 0 <= m ->
+  block_figure true mg m l1 = GSet v1 -> block_figure true mg m l2 = GSet v2 -> v1 <= v2.
+Proof.
+  intros Hle W1 W2 Hs Hm H1 H2. destruct (tx_le_sums _ _ Hle) as [Hd Hu].
+  rewrite (block_figure_is_max _ _ _ _ W1 ltac:(lia) H1), (block_figure_is_max _ _ _ _ W2 Hs H2).
+  assert (Hb : block_used (meter_limit mg) l1 = block_used (meter_limit mg) l2).
+  { unfold block_used. rewrite !sum_used_total, Hu. reflexivity. }
+  rewrite Hb. pose proof (declared_sum_nonneg l1 W1).
+  assert (declared_sum l1 * m / prec <= declared_sum l2 * m / prec) by (apply Z.div_le_mono; [apply prec_pos|nia]).
+  lia.
+Qed.
+
+(** a block whose declared gas, scaled by the multiplier, exceeds the target
+    raises the base fee of the next block, whatever gas it used *)
+Theorem over_declared_raises p h h' mg txs g v :
+  Forall tx_wf txs -> declared_sum txs <= max_uint64 -> fm_enabled p h = true ->
+  block_figure (fm_enabled p h) mg (p_min_gas_mult p) txs = GSet g ->
+  target p mg < declared_sum txs * p_min_gas_mult p / prec ->
+  calc_base_fee p h' mg g = RVal v -> h' <> p_enable_height p ->
+  exists base, p_base_fee p = Some base /\ target p mg < g /\
+    v = base + Z.max 1 (base * (g - target p mg) / target p mg / p_denom p) /\ base + 1 <= v.
+Proof.
+  intros Hwf Hs Hen Hfig HT Hc Hh. rewrite Hen in Hfig.
+  pose proof (block_figure_is_max _ _ _ _ Hwf Hs Hfig) as Hg.
+  assert (HTg : target p mg < g) by lia.
+  destruct (base_fee_formula p h' mg g v Hc Hh) as (base & Hb & _ & Hgt & _).
+  destruct (Hgt HTg) as (_ & _ & Hv & Hge). exists base. repeat split; assumption.
+Qed.
+
+(** the shape of a capped running total: block gas limit 20 000 000, elasticity 2
+    (target 10 000 000), multiplier 1/2, five transactions declaring 8 000 000
+    each and using 106 918.  The code's accumulation gives the figure 20 000 000
+    and the base fee rises by 1/8; capping the running total at the block gas
+    limit gives 10 000 000 = T and an unchanged base fee, although the block's
+    declared gas satisfies the hypothesis of [over_declared_raises]. *)
+Definition seed_txs : list dtx := repeat (mkdtx 8000000 106918 true) 5.
+
+Example capped_accumulation_refuted :
+  block_figure true (Some 20000000) (p_min_gas_mult ex_params) seed_txs = GSet 20000000 /\
+  calc_base_fee ex_params 10 (Some 20000000) 20000000 = RVal 1125000000 /\
+  block_figure_capped (Some 20000000) (p_min_gas_mult ex_params) seed_txs = GSet 10000000 /\
+  target ex_params (Some 20000000) = 10000000 /\
+  calc_base_fee ex_params 10 (Some 20000000) 10000000 = RVal 1000000000 /\
+  declared_sum seed_txs = 40000000 /\
+  target ex_params (Some 20000000) < declared_sum seed_txs * p_min_gas_mult ex_params / prec.
+Proof. vm_compute. repeat split. Qed.
+
+(** non-vacuity of the hypotheses of the three theorems above on that block *)
+Example ex_seed_block :
+  Forall tx_wf seed_txs /\ declared_sum seed_txs <= max_uint64 /\ fm_enabled ex_params 9 = true /\
+  block_figure (fm_enabled ex_params 9) (Some 20000000) (p_min_gas_mult ex_params) seed_txs = GSet 20000000 /\
+  Forall2 tx_le (repeat (mkdtx 4000000 106918 true) 5) seed_txs /\
+  block_figure true (Some 20000000) (p_min_gas_mult ex_params) (repeat (mkdtx 4000000 106918 true) 5) = GSet 10000000.
+Proof.
+  split; [repeat (apply Forall_cons; [split; cbn; lia|]); apply Forall_nil|].
+  split; [vm_compute; discriminate|]. split; [reflexivity|]. split; [vm_compute; reflexivity|].
+  split; [|vm_compute; reflexivity].
+  repeat (apply Forall2_cons; [repeat split; cbn; lia|]). apply Forall2_nil.
+Qed.
+
+(** the hypothesis "the declared gas of the block fits a uint64" cannot be
+    dropped: AddTransientGasWanted adds with Go's uint64 +; three transactions
+    declaring 2^63-1 each (the most a transaction may declare; possible only
+    with unlimited block gas) leave a running total of 2^63-3 *)
+Example declared_sum_wrap_refuted :
+  let txs := repeat (mkdtx 9223372036854775807 100000 true) 3 in
+  Forall tx_wf txs /\ max_uint64 < declared_sum txs /\ fold_wanted txs = 9223372036854775805 /\
+  block_figure true (Some (-1)) (of_int 1 / 2) txs = GSet 4611686018427387902.
+Proof.
+  cbn zeta. split; [repeat (apply Forall_cons; [split; cbn; lia|]); apply Forall_nil|].
+  vm_compute. repeat split.
+Qed.
